@@ -271,6 +271,30 @@ def scenario_cases(seed, tier):
             "ref": {"jobs": [fE], "pick": ["job", 0]},
             "alts": [{"label": "exact mode after the same program in rounded mode", "hashseed": 0, "jobs": [fR, fE], "pick": ["job", 1]}]},
             "features": ["scenario:func-moment-mode-switch"], "text": ftext})
+        # (vii) the same distribution with the same parameter NAMES whose (folded) constant values differ between the programs
+        fam = r.choice(["Gamma", "Beta", "Normal", "Laplace"])
+        (a1, b1), (a2, b2) = r.sample([(2, 3), (1, 6), (3, 2), (2, 1), (4, 3)], 2)
+        def named_prog(a_, b_):
+            return f"k = {a_}\nth = {b_}\ns = 0\nx = 0\nwhile true:\n    x = {fam}(k, th)\n    s = s + x\nend\n"
+        dA = {"id": "A-dist", "text": named_prog(a1, b1), "goals": [{"x": 1}, {"s": 1}, {"x": 2}], "settings": {}, "N": 2, "values": {}, "source_vars": ["x", "s"]}
+        dB = {"id": "B-dist", "text": named_prog(a2, b2), "goals": [{"x": 1}, {"s": 1}, {"x": 2}], "settings": {}, "N": 2, "values": {}, "source_vars": ["x", "s"]}
+        dS = {"id": "S-dist", "text": f"s = 0\nx = 0\nwhile true:\n    x = {fam}(k, th)\n    s = s + x\nend\n", "goals": [{"x": 1}, {"s": 1}], "settings": {}, "N": 2,
+              "values": {}, "source_vars": ["x", "s"]}
+        out.append({"id": f"scn-distparams-{cs}", "scenario": {
+            "ref": {"jobs": [dB], "pick": ["job", 0]},
+            "alts": [{"label": f"after a program drawing {fam}(k, th) with other constant values of k, th", "hashseed": 0, "jobs": [dA, dB], "pick": ["job", 1]},
+                     {"label": "after the same draw with symbolic k, th", "hashseed": 1, "jobs": [dS, dB], "pick": ["job", 1]}]},
+            "features": ["scenario:same-parameter-names-different-constants"], "text": dB["text"]})
+        # (viii) a draw with a default (inside a branch) in an earlier program, the same draw unconditionally in a later one
+        lo, hi = r.choice([(0, 2), (1, 3), (0, 3)])
+        duA = {"id": "A-du", "text": f"c = 0\nm = {lo}\nw = 0\nwhile true:\n    c = Bernoulli(1/2)\n    if c == 1:\n        m = DiscreteUniform({lo}, {hi})\n    end\n    w = w + m\nend\n",
+               "goals": [{"w": 1}], "settings": {}, "N": 2, "values": {}, "source_vars": ["c", "m", "w"]}
+        duB = {"id": "B-du", "text": f"y = {lo}\nz = 0\nwhile true:\n    y = DiscreteUniform({lo}, {hi})\n    if y == {hi}:\n        z = z + 1\n    end\nend\n",
+               "goals": [{"z": 1}, {"y": 1, "z": 1}], "settings": {}, "N": 3, "values": {}, "source_vars": ["y", "z"]}
+        out.append({"id": f"scn-drawdefault-{cs}", "scenario": {
+            "ref": {"jobs": [duB], "pick": ["job", 0]},
+            "alts": [{"label": "after a program with the same DiscreteUniform draw inside a branch", "hashseed": 0, "jobs": [duA, duB], "pick": ["job", 1]}]},
+            "features": ["scenario:conditional-draw-then-same-draw"], "text": duB["text"]})
         out.append({"id": f"scn-funcmode-b-{cs}", "scenario": {
             "ref": {"jobs": [fR], "pick": ["job", 0]},
             "alts": [{"label": "rounded mode after the same program in exact mode", "hashseed": 0, "jobs": [fE, fR], "pick": ["job", 1]}]},
